@@ -128,3 +128,44 @@ def loops(root, iter_pattern, target_pattern=None, env=None):
                     continue
             out.append((n, e))
     return out
+
+
+# ---- universality helpers -------------------------------------------------------------------------------------------
+
+def early_exits(loop):
+    """break / return statements that can cut `loop` short (breaks of nested loops belong to those loops)."""
+    out = []
+
+    def rec(body, depth):
+        for st in body:
+            if isinstance(st, (ast.FunctionDef, ast.AsyncFunctionDef, ast.ClassDef, ast.Lambda)):
+                continue
+            if isinstance(st, ast.Return):
+                out.append(st)
+            elif isinstance(st, ast.Break) and depth == 0:
+                out.append(st)
+            for name in ("body", "orelse", "finalbody"):
+                sub = getattr(st, name, None)
+                if isinstance(sub, list):
+                    rec(sub, depth + (1 if isinstance(st, (ast.For, ast.While)) and name == "body" else 0))
+            for h in getattr(st, "handlers", []) or []:
+                rec(h.body, depth)
+    rec(loop.body, 0)
+    return out
+
+
+def condition_chain(root, stmt):
+    """If / Try / While / IfExp nodes enclosing `stmt` inside `root` (For and With are transparent)."""
+    path = []
+
+    def rec(node, chain):
+        if node is stmt:
+            path.append(list(chain))
+            return True
+        for ch in ast.iter_child_nodes(node):
+            c2 = chain + [node] if isinstance(node, (ast.If, ast.Try, ast.While, ast.IfExp)) and node is not root else chain
+            if rec(ch, c2):
+                return True
+        return False
+    rec(root, [])
+    return path[0] if path else None
